@@ -2,13 +2,13 @@ NOT_APPLICABLE = {}
 
 add("C01", "exploration",
     "differential runtime monitor: real handshake + commands against an independent simulated BMC (key equality, strict per-packet verification)",
-    "Every explored handshake configuration (suite x credentials x KG x privilege x lookup x BMC randoms) is executed for real against an independently written BMC; SIK/K1/K2 and IDs are compared byte for byte and follow-up commands must pass the BMC's own integrity check and decryption. Sampled + strided grid, so 'held on what was generated'.",
+    "Every explored handshake configuration (suite x credentials x KG x privilege x lookup x BMC randoms) is executed for real against an independently written BMC; SIK/K1/K2 and IDs are compared byte for byte and follow-up commands must pass the BMC's own integrity check and decryption. Sampled + strided grid, so 'held on what was generated'. Also through the version-agnostic NewSession entry point, with commands addressed to LUNs 1..3 and request sizes that jump, several handshakes on one connection with credentials overwritten in place, and handshake replies damaged in transit.",
     "Trusted base: refbmc's reading of IPMI v2.0 13.28-13.32; Go crypto; the in-memory transport hook (also run hook-free over loopback UDP).",
     "DESIGN.md 5/C01")
 
 add("C05", "fault_enumeration",
     "panic/over-read sanitizer: recover() on exact-capacity slices + poisoned-tail differential on every decoder; hostile-reply substitution at every transmission of live flows over the hooked transport",
-    "Ring 1 enumerates every truncation and single-byte boundary mutation of valid encodings of all 29 decodable layers (plus fills, PRNG, registered gopacket chains, string decoders, every AES pad count); ring 2 enumerates a derived hostile corpus at every reply position of eight call flows, including authentic packets around hostile plaintexts. Any panic, hang or dependence on bytes beyond the datagram is a violation.",
+    "Ring 1 enumerates every truncation and single-byte boundary mutation of valid encodings of all 29 decodable layers (plus fills, PRNG, registered gopacket chains, string decoders, every AES pad count); ring 2 enumerates a derived hostile corpus at every reply position of eight call flows, including authentic packets around hostile plaintexts. Any panic, hang or dependence on bytes beyond the datagram is a violation. Replies claiming to be authenticated with a complete trailer at every position; thorough tier additionally runs Go's coverage-guided fuzzer (go test -fuzz, fixed execution counts) over the same oracles for the layer decoders, the registered packet decoders, the ID-string decoders and cipher-suite record data.",
     "Go bounds checks are the memory-safety oracle (pure Go, no unsafe); inputs outside the enumerated/mutated families are sampled only. Run twice: as the native build and as a linux/386 build (32-bit int).",
     "DESIGN.md 5/C05, 3.4")
 
@@ -20,13 +20,13 @@ add("C08", "exploration",
 
 add("C20", "exploration",
     "exhaustive differential against arithmetic definitions through the exported API",
-    "Every finite domain named by the property is enumerated completely (exhaustive: true) and compared with a directly written definition.",
+    "Every finite domain named by the property is enumerated completely (exhaustive: true) and compared with a directly written definition. A concurrent pass (16 goroutines converting at once) and decoding into long-lived record layers.",
     "BCD only defined for digits 0..9; period encoder definition as documented by the library. Run twice: native and linux/386 build.",
     "DESIGN.md 5/C20")
 
 add("C12", "exploration",
     "reference-model monitor over the simulated BMC's request log (discovery use, proposal) + response mutator on the Open Session Response",
-    "Selection is enumerated exhaustively for all ordered preference lists of length 0..3 over a 6-suite universe against all 64 advertised subsets and compared with a small model; adverts of up to 900 bytes, duplicates, zero-length and faulty discovery replies, repeated handshakes on one connection; the answer side rewrites the algorithm triple (all values per axis, PRNG triples; thorough: all 64^3 for three proposals) and requires an error unless it equals the proposal.",
+    "Selection is enumerated exhaustively for all ordered preference lists of length 0..3 over a 6-suite universe against all 64 advertised subsets and compared with a small model; adverts of up to 900 bytes, duplicates, zero-length and faulty discovery replies, repeated handshakes on one connection; the answer side rewrites the algorithm triple (all values per axis, PRNG triples; thorough: all 64^3 for three proposals) and requires an error unless it equals the proposal. BMCs that refuse the Open Session Request for a suite they advertise (one proposal, then an error).",
     "Trusted base: refbmc's cipher suite record encoding (table 22-19) and handshake.",
     "DESIGN.md 5/C12")
 
@@ -38,13 +38,13 @@ add("C02", "fault_enumeration",
 
 add("C03", "exploration",
     "online wire monitor in the simulated BMC: per-datagram verification of header, integrity trailer, AuthCode, AES-CBC framing, checksums and decrypted command against independent request tables; global IV-uniqueness set",
-    "All nine suites; every opaque body length 0..200 in the three NetFn classes in ascending and shuffled order; mixed histories of all library commands with retransmissions, lost replies that take the real per-attempt timeout and interleaved session-less commands; fresh and long-lived connections; also over loopback UDP; an entropy-source failure injected in a child process (nothing encrypted may be transmitted afterwards).",
+    "All nine suites; every opaque body length 0..200 in the three NetFn classes in ascending and shuffled order; mixed histories of all library commands with retransmissions, lost replies that take the real per-attempt timeout and interleaved session-less commands; fresh and long-lived connections; also over loopback UDP; an entropy-source failure injected in a child process (nothing encrypted may be transmitted afterwards). A third of the sessions use two-key login (K_G).",
     "Trusted base: refbmc/refcodec reading of IPMI v2.0 13.28-13.29 and the request tables. Sampled field values.",
     "DESIGN.md 5/C03")
 
 add("C04", "fault_enumeration",
     "forgery catalogue and exhaustive bit-flip/truncation injection on authentic replies, with and without the session keys; oracle = error or authentic value after the authentic datagram",
-    "Every catalogue item (incl. ten wrong session IDs) x nine suites x three commands in two delivery modes; every completion code on seven unsigned/misaddressed forgery kinds; every single-bit flip (thorough) and every truncation of the authentic reply.",
+    "Every catalogue item (incl. ten wrong session IDs) x nine suites x three commands in two delivery modes; every completion code on seven unsigned/misaddressed forgery kinds; every single-bit flip (thorough) and every truncation of the authentic reply. Forgeries are also delivered after an authentic Node Busy with the caller's context ending, after a failed Close, for Close Session itself, and when the BMC itself stays silent.",
     "Forged packets carry a different body so acceptance is visible; RMCP header bits are outside the authenticated range.",
     "DESIGN.md 5/C04")
 
@@ -62,13 +62,13 @@ add("C10", "fault_enumeration",
 
 add("C11", "fault_enumeration",
     "stray-reply injection (authentic in session) for all ordered command pairs and patterns; oracle = error or own value, follow-up commands re-synchronise; real socket-queue duplicates over UDP",
-    "All ordered pairs of 10 commands x 5 patterns x {session-less, in-session}, plus UDP histories with real duplicated datagrams.",
+    "All ordered pairs of 10 commands x 5 patterns x {session-less, in-session}, plus UDP histories with real duplicated datagrams. A third of the cases use the library's own command types (field-wise comparison); strays followed by a bare error completion code.",
     "Same-command duplicates cannot be distinguished under the statement; the UDP queue-off-by-one consequence is an open known finding.",
     "DESIGN.md 5/C11")
 
 add("C06", "exploration",
     "independent parse of every transmitted datagram (refbmc wrapper/message parser + refcodec request tables) compared field by field with the caller's values",
-    "Small field domains enumerated completely (65536 cipher-suite requests, 512 auth-capability requests, 1024 sensor requests, ...), wide fields sampled, each outside and inside a session; handshakes for every privilege x lookup mode x username length 0..40.",
+    "Small field domains enumerated completely (65536 cipher-suite requests, 512 auth-capability requests, 1024 sensor requests, ...), wide fields sampled, each outside and inside a session; handshakes for every privilege x lookup mode x username length 0..40. Also: a fresh connection per first-large-request size, session-less commands interleaved with in-session ones on one connection, several handshakes with different preference lists, none algorithms, Chassis Control through the session method.",
     "Callers' values restricted to the wire domain. Trusted base: refcodec request tables.",
     "DESIGN.md 5/C06")
 
@@ -80,7 +80,7 @@ add("C07", "exploration",
 
 add("C14", "exploration",
     "versioned stateful repository device + existential snapshot oracle over the request log (one version, one reservation) with fault injection before every Get SDR",
-    "Generated repositories walked through a real session; every injection point of the walk for seven fault kinds; result compared with refcodec values of each repository version.",
+    "Generated repositories walked through a real session; every injection point of the walk for seven fault kinds; result compared with refcodec values of each repository version. Sessions that carried traffic or retrievals before; fault-free cases are monitored for requests sent again after a valid answer; BMCs checking the reservation on every partial read and at non-zero offsets only; reserved type/length bit set in some records.",
     "The library's own 500 ms back-off stays in place (sleep-bound). Trusted base: refbmc repository semantics (IPMI v2.0 section 33).",
     "DESIGN.md 5/C14")
 
@@ -92,30 +92,30 @@ add("C15", "exploration",
 
 add("C16", "exploration",
     "ground-truth servers for paged data (cipher suite records in 16-byte chunks, DCMI sensor-info pages) + independent record grammar; request log bounds termination",
-    "Record lists steered onto chunk boundaries, malformed data at every cut; lists of up to 200 records (64 chunks); DCMI: every instance count 0..255 with page sizes 1..200, five fallback modes, errors on later pages and BMCs that over-report the instance count.",
+    "Record lists steered onto chunk boundaries, malformed data at every cut; lists of up to 200 records (64 chunks); DCMI: every instance count 0..255 with page sizes 1..200, five fallback modes, errors on later pages and BMCs that over-report the instance count. Enumerations failing from a later list index on (error, not a partial list); a second DCMI enumeration on the same session after the BMC recovered.",
     "Entity-ID constants checked against specification values at start-up.",
     "DESIGN.md 5/C16")
 
 add("C17", "exploration",
     "differential reuse monitor: used layer/connection vs fresh one, deep comparison of exported fields by value",
-    "Ordered pairs of valid encodings per layer covering all branch combinations, plus every truncation and small mutations as later inputs; every ordered pair of 12 commands x 6 first-command outcomes x {session-less, in-session} against a fresh connection; cipher-suite discovery and SDR histories with failures part-way; results of the high-level calls held across later calls; sessions of up to 600 commands.",
+    "Ordered pairs of valid encodings per layer covering all branch combinations, plus every truncation and small mutations as later inputs; every ordered pair of 12 commands x 6 first-command outcomes x {session-less, in-session} against a fresh connection; cipher-suite discovery and SDR histories with failures part-way; results of the high-level calls held across later calls; sessions of up to 600 commands. Discovery histories starting with a complete handshake and a changing advertisement; bare reservation losses during SDR retrievals.",
     "Whatever a decoder accepts must decode identically into a used and a fresh value; sampled.",
     "DESIGN.md 5/C17")
 
 add("C13", "fault_enumeration",
     "wall-clock overshoot monitor over real UDP with a scheduler-lateness canary + logical monitor of every attempt context's deadline at the in-memory transport",
-    "Six fault patterns (incl. datagrams ending in long 0xFF runs) from each of thirteen steps of the blocking calls (incl. a wrong-password handshake) with three timeout:deadline ratios (quick: one third of the grid, rotating with the seed; thorough: all plus extra ratios), already-expired contexts, and the load-independent attempt-deadline invariants.",
+    "Six fault patterns (incl. datagrams ending in long 0xFF runs) from each of thirteen steps of the blocking calls (incl. a wrong-password handshake) with three timeout:deadline ratios (quick: one third of the grid, rotating with the seed; thorough: all plus extra ratios), already-expired contexts, and the load-independent attempt-deadline invariants. Steps also cover cipher-suite enumeration (from a later list index on, and repeated on one connection), sensor reads, DCMI enumeration, a BMC whose port is gone, an over-long Full Sensor Record, Open Session answered with a temporary status and SetTimeout; every case is also monitored for 'success needs a valid response delivered during the call'.",
     "250 ms scheduling allowance; canary lateness > 100 ms makes a case inconclusive (repeated up to three times), never a violation.",
     "DESIGN.md 5/C13")
 
 add("C18", "exploration",
     "conservation monitor: prometheus.DefaultGatherer snapshot before/after every step of random histories vs a model fed from transport-level counts",
-    "Random histories (up to 60 steps) over dials (incl. non-positive timeouts), opens, arbitrary commands with scripted outcomes (incl. strays and message-less datagrams), bounded retry policies that give up, serialisation failures and closes; every bmc_* counter and gauge delta must equal the model's for every step.",
+    "Random histories (up to 60 steps) over dials (incl. non-positive timeouts), opens, arbitrary commands with scripted outcomes (incl. strays and message-less datagrams), bounded retry policies that give up, serialisation failures and closes; every bmc_* counter and gauge delta must equal the model's for every step. Dials through bmc.Dial and with unbracketed IPv6 literals, opens cancelled during the last handshake exchange, retransmissions across the wrap of the session sequence number.",
     "Histories run one at a time in the process (vectors are process-global); only unambiguous outcomes are generated.",
     "DESIGN.md 5/C18")
 
 add("C19", "exploration",
     "Go race detector (binary built with -race, reports parsed and de-duplicated by library frames) + differential solo-vs-concurrent transcripts of results and BMC-side datagram logs",
-    "Rounds of 2..16 goroutines with independent connections (UDP and in-memory), shared read-only option values, same-key sensors with per-BMC factors and seeded random workloads (repository walks, readers, session info, busy/stalled peers), repeated; interleaving evidence = distinct worker-ID sequences over transport events.",
+    "Rounds of 2..16 goroutines with independent connections (UDP and in-memory), shared read-only option values, same-key sensors with per-BMC factors and seeded random workloads (repository walks, readers, session info, busy/stalled peers), repeated; interleaving evidence = distinct worker-ID sequences over transport events. The fleet shares BMC session IDs, mixes standard-entity-ID and DCMI-only BMCs with every enumeration compared with the worker's own BMC, receives datagrams of unregistered payload types, and a payload descriptor is registered between rounds under a watchdog.",
     "Judges executed accesses under the schedules this run produced; non-reproducing transcript differences are inconclusive.",
     "DESIGN.md 5/C19")
